@@ -30,7 +30,7 @@ func valueBytes(v driver.Valuer) []byte {
 	return b
 }
 
-func scanCode(dst sql.Scanner, src []byte, get func() geom.Geometry, want string) (code byte) {
+func scanCode(dst sql.Scanner, src interface{}, get func() geom.Geometry, want string) (code byte) {
 	defer func() {
 		if r := recover(); r != nil {
 			code = 'p' // a panic inside Scan
@@ -152,7 +152,7 @@ func main() {
 			scanCode(&ng, wkb, func() geom.Geometry { return ng.Geometry }, gd),
 		}
 		// the same Scan matrix on the big-endian and on the mixed-endian document of the same value
-		scanOn := func(doc []byte) string {
+		scanOn := func(doc interface{}) string {
 			var pt geom.Point
 			var ls geom.LineString
 			var py geom.Polygon
@@ -176,9 +176,11 @@ func main() {
 		}
 		scanBE := scanOn(big)
 		scanMixed := scanOn(mixed)
+		// database drivers hand WKB over as []byte or as string: the same matrix from string sources
+		scanStr := scanOn(string(wkb)) + scanOn(string(big))
 		fields := []string{
 			fmt.Sprintf("%d", i), class, n.Dump(), gd, lib.Hex(wkb), d1, re,
-			lib.Hex(mixed), d2, lib.Hex(big), d4, trail, app, val, fmt.Sprintf("%d", valid), string(scan), scanBE, scanMixed,
+			lib.Hex(mixed), d2, lib.Hex(big), d4, trail, app, val, fmt.Sprintf("%d", valid), string(scan), scanBE, scanMixed, scanStr,
 		}
 		fmt.Fprintln(w, strings.Join(fields, "\t"))
 	}
